@@ -16,6 +16,11 @@ pub(crate) fn meta_map_from(bytes: [u8; N], buckets: usize) -> MetaMap {
     MetaMap { buckets, bitvec: bytes.to_vec() }
 }
 
+/// A zeroed one-page meta map (page_slice needs whole 4096-byte pages).
+pub(crate) fn meta_map_one_page(buckets: usize) -> MetaMap {
+    MetaMap { buckets, bitvec: vec![0u8; 4096] }
+}
+
 pub(crate) fn byte(m: &MetaMap, i: usize) -> u8 {
     m.bitvec[i]
 }
